@@ -37,12 +37,15 @@ def cases(draw):
     method = draw(st.sampled_from(METHODS))
     if method == "L-BFGS-B" and model["constraints"]:
         method = "SLSQP"
+    if method != "auto" and draw(st.integers(0, 4)) == 0:
+        method = draw(st.sampled_from([method.lower(), method.upper()]))   # SciPy matches method names case-insensitively
     n = len(model["names"])
     x0kind = draw(st.sampled_from(["default", "default", "near", "far"]))
     off = [draw(st.sampled_from([-0.5, 0.25, 0.5])) for _ in range(n)]
     pts = [[draw(st.integers(-8, 8)) / 4.0 for _ in range(n)] for _ in range(3)]
     # documented keyword arguments of solve(): they must arrive at SciPy unchanged
-    opts = {"tol": draw(st.sampled_from([None, None, 1e-10, 1e-7])),
+    opts = {"options": draw(st.sampled_from([None, None, None, {"disp": False}])),
+            "tol": draw(st.sampled_from([None, None, 1e-10, 1e-7])),
             "maxiter": draw(st.sampled_from([None, None, None, 400, 400, 2])),
             "use_hessian": draw(st.sampled_from([True, True, False]))}
     return {"model": model, "method": method, "x0kind": x0kind, "off": off, "points": pts, "opts": opts,
@@ -84,6 +87,8 @@ def check(case):
         kw["maxiter"] = opts["maxiter"]
     if opts.get("use_hessian") is False:
         kw["use_hessian"] = False
+    if opts.get("options"):
+        kw["options"] = dict(opts["options"])   # the standard scipy.optimize.minimize argument
     classes += [f"kw:{k}" for k in sorted(kw) if k != "x0"]
     with quiet():
         try:
@@ -106,8 +111,13 @@ def check(case):
         if len(cap.calls) > 1:
             classes.append("retry:" + str(cap.calls[1].get("method")))
         # ---- layer 1: wiring
-        if method != "auto" and used != method:
+        if method != "auto" and str(used).lower() != method.lower():
             return Result.violation("wiring-method", f"asked {method}, SciPy got {used}; {desc}", classes)
+        canon = {"slsqp": "SLSQP", "trust-constr": "trust-constr", "l-bfgs-b": "L-BFGS-B"}
+        used = canon.get(str(used).lower(), used)   # optyx may pass the name through as written; SciPy does not care
+        for k_, v_ in (kw.get("options") or {}).items():
+            if (call.get("options") or {}).get(k_) != v_:
+                return Result.violation("wiring-options", f"solve(options={kw['options']!r}) but SciPy got options={call.get('options')!r}; {desc}", classes)
         x0c = np.asarray(call.get("x0"), dtype=float)
         if "x0" in kw and not np.array_equal(x0c, kw["x0"]):
             return Result.violation("wiring-x0", f"passed x0={kw['x0'].tolist()}, SciPy got {x0c.tolist()}; {desc}", classes)
